@@ -56,6 +56,10 @@ def hand_scenarios():
     for fi in (1, 2):
         out.append(("html", "R/a.txt", {"R/a.txt": dict(F([T("A "), M("b.txt"), T(" end\n")], True, "sub"), first=fi), "R/sub/b.txt": F([T("Bsub")]), "R/b.txt": F([T("Btop")])}))
         out.append(("html", "R/a.txt", {"R/a.txt": F([T("A "), M("m.txt"), T(" end\n")]), "R/m.txt": dict(F([T("M "), M("leaf.txt"), T("\n")], True, "sub"), first=fi), "R/sub/leaf.txt": F([T("LEAFSUB")]), "R/leaf.txt": F([T("LEAFTOP")])}))
+    # files whose first line starts with an address (scheme://...): that line has a colon in it but is text, not metadata -- as an included file and as the top-level one
+    for sch in ("http://e.org/x", "ftp://host/f", "svn+ssh://h/r"):
+        out.append(("html", "R/a.txt", {"R/a.txt": F([T("A "), M("u.txt"), T(" end\n")]), "R/u.txt": F([T(sch + " opens the first paragraph "), M("leaf.txt"), T("\nsecond line\n\nrest\n")]), "R/leaf.txt": F([T("LEAF")])}))
+        out.append(("html", "R/a.txt", {"R/a.txt": F([T(sch + " first words "), M("leaf.txt"), T(" end\n\nmore "), M("leaf.txt"), T("\n")]), "R/leaf.txt": F([T("LEAF")])}))
     # included files with a large metadata block (its size must not matter): the base override comes after a long value
     for pad in (200, 3000, 4090, 5000, 9000):
         out.append(("html", "R/a.txt", {"R/a.txt": F([T("A "), M("big.txt"), T(" end\n")]), "R/big.txt": dict(F([T("B "), M("leaf.txt"), T("\n")], True, "sub"), pad=pad), "R/sub/leaf.txt": F([T("LEAFSUB")]), "R/leaf.txt": F([T("LEAFTOP")])}))
